@@ -97,8 +97,9 @@ def inject(scratch_repo, verif, injections):
 
 class Watchdog(threading.Thread):
     """kills cbmc processes whose RSS exceeds the limit (no swap on this machine)"""
-    def __init__(self, limit_gb=14.0, total_gb=48.0):
+    def __init__(self, limit_gb=14.0, total_gb=40.0, root_pid=None):
         super().__init__(daemon=True)
+        self.root_pid = root_pid
         self.limit_kb = int(limit_gb * 1024 * 1024)
         self.total_kb = int(total_gb * 1024 * 1024)
         self.stop = False
@@ -118,6 +119,8 @@ class Watchdog(threading.Thread):
                     m = re.search(r"^Name:\s+(\S+)", st, re.M)
                     if not m or m.group(1) not in ("cbmc", "goto-instrument", "goto-synthesizer"):
                         continue
+                    if self.root_pid and not self._descends(int(pid)):
+                        continue      # only our own children: other sessions run their own verifiers
                     r = re.search(r"^VmRSS:\s+(\d+) kB", st, re.M)
                     if r:
                         procs.append((int(r.group(1)), int(pid)))
@@ -133,6 +136,24 @@ class Watchdog(threading.Thread):
                     except OSError:
                         pass
             time.sleep(1.5)
+
+def _ppid(pid):
+    try:
+        with open("/proc/%d/stat" % pid) as f:
+            return int(f.read().rsplit(")", 1)[1].split()[1])
+    except (OSError, ValueError, IndexError):
+        return 0
+
+def _descends_from(pid, root):
+    for _ in range(64):
+        if pid == root:
+            return True
+        if pid <= 1:
+            return False
+        pid = _ppid(pid)
+    return False
+
+Watchdog._descends = lambda self, pid: _descends_from(pid, self.root_pid)
 
 def parse_terse(out):
     """returns {harness_fullname: {"status", "failed": [...], "covers": (sat,total), "checks": (failed,total), "time": s}}"""
@@ -197,12 +218,13 @@ def run_kani(crate_dir, harnesses, features="", no_default=False, jobs=8, timeou
     if env:
         e.update(env)
     wd = Watchdog()
-    wd.start()
     t0 = time.time()
     timed_out = False
     try:
         p = subprocess.Popen(cmd, cwd=crate_dir, env=e, stdout=subprocess.PIPE, stderr=subprocess.STDOUT, text=True,
                              start_new_session=True)
+        wd.root_pid = p.pid
+        wd.start()
         try:
             out, _ = p.communicate(timeout=timeout)
         except subprocess.TimeoutExpired:
